@@ -1,9 +1,10 @@
 /-
 C10 — stage 2 of the schema model (DESIGN §3): schemas with named references and an environment; the
 validator is fuel-indexed, `diverge` = out of fuel (in Go: unbounded recursion → fatal stack overflow).
-Fragment: leaves, `allOf` (an *unguarded* position: the same value is visited again), `items` (a *guarded*
-position: a strictly smaller value is visited), `$ref`, and one bit `own` = "the schema carries a keyword of
-its own" (which makes `Schema.IsEmpty` answer at once).
+Fragment: leaves, the *unguarded* positions `not`, `anyOf` (first success ends the loop) and `allOf` (the same
+value is visited again), the *guarded* position `items` (a strictly smaller value is visited), `$ref`, and one
+bit `own` = "the schema carries a keyword of its own" (which makes `Schema.IsEmpty` answer at once). The order is
+the order of `visitJSON`: not, anyOf, allOf, then the typed part (items); an error ends the visit.
 
 History: the design prototype left `Schema.IsEmpty` out; the differential run showed that on the tree of
 that time `visitJSON` called it first and it recursed through `items`/`allOf` of schemas without own
@@ -11,11 +12,15 @@ keywords (F-C10-5). Since commit 08457da `visitJSON` tests `!schema.hasSubSchema
 `IsEmpty` is only evaluated on schemas without sub-schemas, where it cannot recurse, so `visit` no longer
 depends on it. `isEmpty` stays here as the model of the function itself (`isEmpty_diverges` is still a fact
 about `Schema.IsEmpty`, which is no longer on the traffic path).
-  * visit_mono_ok / visit_mono_k — more fuel never changes a decided result
+  * visit_mono_ok / visit_mono_k / visit_mono_le — more fuel never changes a decided result
+  * ranked_decided / ranked_never_diverges — GENERAL: in an environment whose unguarded references are ranked
+    (no cycle of unguarded references) every schema is decided on every value
+  * guardedB / guardedB_sound — the decidable form (ranks computed by relaxation, then checked)
   * unguarded_diverges   — `A: {allOf: [{$ref: A}]}` (with or without own keywords) diverges for EVERY fuel and value (finding #6)
   * guarded_terminates   — `L: {items: {$ref: L}}`, with or without own keywords, is decided for every value, explicit fuel
-  * executable side for the driver: `envOf`, `hasUnguardedCycle`
+  * executable side for the driver: `envOf`, `hasUnguardedCycle`, `guardedB`
 -/
+set_option linter.unusedSimpArgs false
 namespace KinModel.NoPanic.Recursion
 
 inductive J where
@@ -23,13 +28,13 @@ inductive J where
   | arr (xs : List J)
 
 inductive S where
-  | leaf (acceptNum : Bool)                 -- stands for all leaf keywords
-  | node (own : Bool) (allOf : List S) (items : Option S)
+  | leaf (acceptNum : Bool)
+  | node (own : Bool) (nt : Option S) (anyOf : List S) (allOf : List S) (items : Option S)
   | ref (name : Nat)
 
 abbrev Env := Nat → Option S
 
-inductive Res | ok (b : Bool) | diverge      -- `diverge` = out of fuel (in Go: unbounded recursion)
+inductive Res | ok (b : Bool) | diverge
   deriving DecidableEq
 
 @[macro_inline] def Res.and : Res → Res → Res
@@ -37,48 +42,92 @@ inductive Res | ok (b : Bool) | diverge      -- `diverge` = out of fuel (in Go: 
   | .ok false, _ => .ok false
   | .ok true, r => r
 
+@[macro_inline] def Res.orElse : Res → Res → Res
+  | .diverge, _ => .diverge
+  | .ok true, _ => .ok true
+  | .ok false, r => r
+
+def Res.neg : Res → Res
+  | .diverge => .diverge
+  | .ok b => .ok (!b)
+
+/-- the combinators the validators are written with take their second argument as a thunk: the compiled driver must
+    not evaluate what the Go code does not visit (a strict second argument costs time exponential in the fuel on
+    environments with several unguarded references per definition). They are `Res.and` / `Res.orElse` (lemmas
+    below), so every proof is about those. -/
+def Res.andT (a : Res) (b : Unit → Res) : Res :=
+  match a with
+  | .diverge => .diverge
+  | .ok false => .ok false
+  | .ok true => b ()
+
+def Res.orT (a : Res) (b : Unit → Res) : Res :=
+  match a with
+  | .diverge => .diverge
+  | .ok true => .ok true
+  | .ok false => b ()
+
+@[simp] theorem Res.andT_eq (a : Res) (b : Unit → Res) : a.andT b = a.and (b ()) := by
+  cases a with
+  | diverge => rfl
+  | ok x => cases x <;> rfl
+
+@[simp] theorem Res.orT_eq (a : Res) (b : Unit → Res) : a.orT b = a.orElse (b ()) := by
+  cases a with
+  | diverge => rfl
+  | ok x => cases x <;> rfl
+
 mutual
-/-- `Schema.IsEmpty`: own keyword → false at once; else items, then allOf, first non-empty answers -/
+/-- `Schema.IsEmpty`: own keyword → false at once; else not, items, anyOf, allOf in the code's order, the first
+    non-empty one answers -/
 def isEmpty (Γ : Env) : Nat → S → Res
   | 0, _ => .diverge
   | _ + 1, .leaf a => .ok a
   | fuel + 1, .ref x => (match Γ x with | none => .ok true | some s => isEmpty Γ fuel s)
-  | fuel + 1, .node own allOf items =>
+  | fuel + 1, .node own nt anyOf allOf items =>
     if own then .ok false
-    else Res.and (match items with | none => Res.ok true | some s => isEmpty Γ fuel s) (isEmptyAll Γ fuel allOf)
+    else Res.andT (match nt with | none => Res.ok true | some s => isEmpty Γ fuel s) fun _ =>
+          Res.andT (match items with | none => Res.ok true | some s => isEmpty Γ fuel s) fun _ =>
+            Res.andT (isEmptyAll Γ fuel anyOf) fun _ => isEmptyAll Γ fuel allOf
 def isEmptyAll (Γ : Env) : Nat → List S → Res
   | _, [] => .ok true
   | 0, _ :: _ => .diverge
-  | fuel + 1, s :: ss => (isEmpty Γ fuel s).and (isEmptyAll Γ fuel ss)
+  | fuel + 1, s :: ss => (isEmpty Γ fuel s).andT fun _ => isEmptyAll Γ fuel ss
 end
 
 /-- `hasSubSchemas` -/
 def hasSub : S → Bool
-  | .node _ allOf items => !allOf.isEmpty || items.isSome
+  | .node _ nt anyOf allOf items => nt.isSome || !anyOf.isEmpty || !allOf.isEmpty || items.isSome
   | _ => false
 
 mutual
-/-- `visitJSON`: the `IsEmpty` shortcut is taken only for schemas without sub-schemas (`!hasSubSchemas() &&
-    IsEmpty()`), where it gives the verdict the general path gives in this fragment (accept), so it does not
-    appear as a separate branch; in particular `IsEmpty` is never evaluated on a schema with sub-schemas -/
 def visit (Γ : Env) : Nat → S → J → Res
   | 0, _, _ => .diverge
   | _ + 1, .leaf a, v => (match v with | .num _ => .ok a | .arr _ => .ok true)
   | fuel + 1, .ref x, v => (match Γ x with | none => .ok false | some s => visit Γ fuel s v)
-  | fuel + 1, .node _ allOf items, v =>
-    (visitAll Γ fuel allOf v).and
-      (match v, items with
-       | .arr xs, some s => visitItems Γ fuel s xs
-       | _, _ => .ok true)
+  | fuel + 1, .node _ nt anyOf allOf items, v =>
+    (match nt with | none => Res.ok true | some s => (visit Γ fuel s v).neg).andT fun _ =>
+      (match anyOf with | [] => Res.ok true | _ :: _ => visitAny Γ fuel anyOf v).andT fun _ =>
+        (visitAll Γ fuel allOf v).andT fun _ =>
+          (match v, items with
+           | .arr xs, some s => visitItems Γ fuel s xs
+           | _, _ => .ok true)
+def visitAny (Γ : Env) : Nat → List S → J → Res
+  | _, [], _ => .ok false
+  | 0, _ :: _, _ => .diverge
+  | fuel + 1, s :: ss, v => (visit Γ fuel s v).orT fun _ => visitAny Γ fuel ss v
 def visitAll (Γ : Env) : Nat → List S → J → Res
   | _, [], _ => .ok true
   | 0, _ :: _, _ => .diverge
-  | fuel + 1, s :: ss, v => (visit Γ fuel s v).and (visitAll Γ fuel ss v)
+  | fuel + 1, s :: ss, v => (visit Γ fuel s v).andT fun _ => visitAll Γ fuel ss v
 def visitItems (Γ : Env) : Nat → S → List J → Res
   | _, _, [] => .ok true
   | 0, _, _ :: _ => .diverge
-  | fuel + 1, s, x :: xs => (visit Γ fuel s x).and (visitItems Γ fuel s xs)
+  | fuel + 1, s, x :: xs => (visit Γ fuel s x).andT fun _ => visitItems Γ fuel s xs
 end
+
+/-- "decided": some fuel gives an answer -/
+def Dec (f : Nat → Res) : Prop := ∃ n b, f n = .ok b
 
 theorem andMono (a a' c c' : Res) (b : Bool) (h1 : ∀ x, a = .ok x → a' = .ok x) (h2 : ∀ x, c = .ok x → c' = .ok x)
     (h : a.and c = .ok b) : a'.and c' = .ok b := by
@@ -90,97 +139,437 @@ theorem andMono (a a' c c' : Res) (b : Bool) (h1 : ∀ x, a = .ok x → a' = .ok
     | false => simpa [Res.and] using h
     | true => simp only [Res.and] at h ⊢; exact h2 b h
 
-/-- the shortcut is sound to leave out: on a schema without sub-schemas `IsEmpty` answers with fuel 1 -/
-theorem isEmpty_no_sub (Γ : Env) (own : Bool) (fuel : Nat) :
-    isEmpty Γ (fuel + 1) (.node own [] none) = .ok (!own) := by
-  cases own <;> simp [isEmpty, isEmptyAll, Res.and]
+theorem orMono (a a' c c' : Res) (b : Bool) (h1 : ∀ x, a = .ok x → a' = .ok x) (h2 : ∀ x, c = .ok x → c' = .ok x)
+    (h : a.orElse c = .ok b) : a'.orElse c' = .ok b := by
+  cases a with
+  | diverge => simp [Res.orElse] at h
+  | ok x =>
+    rw [h1 x rfl]
+    cases x with
+    | true => simpa [Res.orElse] using h
+    | false => simp only [Res.orElse] at h ⊢; exact h2 b h
 
-theorem visit_mono_ok (Γ : Env) :
-    (∀ fuel s v b, visit Γ fuel s v = .ok b → visit Γ (fuel + 1) s v = .ok b) ∧
-    (∀ fuel ss v b, visitAll Γ fuel ss v = .ok b → visitAll Γ (fuel + 1) ss v = .ok b) ∧
-    (∀ fuel s xs b, visitItems Γ fuel s xs = .ok b → visitItems Γ (fuel + 1) s xs = .ok b) := by
-  have key : ∀ fuel,
-      (∀ s v b, visit Γ fuel s v = .ok b → visit Γ (fuel + 1) s v = .ok b) ∧
-      (∀ ss v b, visitAll Γ fuel ss v = .ok b → visitAll Γ (fuel + 1) ss v = .ok b) ∧
-      (∀ s xs b, visitItems Γ fuel s xs = .ok b → visitItems Γ (fuel + 1) s xs = .ok b) := by
-    intro fuel
-    induction fuel with
-    | zero =>
-      refine ⟨?_, ?_, ?_⟩
-      · intro s v b h; simp [visit] at h
-      · intro ss v b h; cases ss <;> simp [visitAll] at h ⊢; exact h
-      · intro s xs b h; cases xs <;> simp [visitItems] at h ⊢; exact h
-    | succ n ih =>
-      obtain ⟨ihV, ihA, ihI⟩ := ih
-      refine ⟨?_, ?_, ?_⟩
-      · intro s v b h
-        cases s with
-        | leaf a => simpa [visit] using h
-        | ref x =>
-          simp only [visit] at h ⊢
-          cases hg : Γ x with
-          | none => simpa [hg] using h
-          | some s' => simp only [hg] at h ⊢; exact ihV s' v b h
-        | node own allOf items =>
-          simp only [visit] at h ⊢
-          refine andMono _ _ _ _ b (fun x hx => ihA allOf v x hx) ?_ h
-          intro x hx
+theorem negMono (a a' : Res) (b : Bool) (h1 : ∀ x, a = .ok x → a' = .ok x) (h : a.neg = .ok b) : a'.neg = .ok b := by
+  cases a with
+  | diverge => simp [Res.neg] at h
+  | ok x => rw [h1 x rfl]; exact h
+
+theorem visit_mono_ok (Γ : Env) : ∀ fuel,
+    (∀ s v b, visit Γ fuel s v = .ok b → visit Γ (fuel + 1) s v = .ok b) ∧
+    (∀ ss v b, visitAny Γ fuel ss v = .ok b → visitAny Γ (fuel + 1) ss v = .ok b) ∧
+    (∀ ss v b, visitAll Γ fuel ss v = .ok b → visitAll Γ (fuel + 1) ss v = .ok b) ∧
+    (∀ s xs b, visitItems Γ fuel s xs = .ok b → visitItems Γ (fuel + 1) s xs = .ok b) := by
+  intro fuel
+  induction fuel with
+  | zero =>
+    refine ⟨?_, ?_, ?_, ?_⟩
+    · intro s v b h; simp [visit] at h
+    · intro ss v b h; cases ss <;> simp [visitAny] at h ⊢; exact h
+    · intro ss v b h; cases ss <;> simp [visitAll] at h ⊢; exact h
+    · intro s xs b h; cases xs <;> simp [visitItems] at h ⊢; exact h
+  | succ n ih =>
+    obtain ⟨ihV, ihY, ihA, ihI⟩ := ih
+    refine ⟨?_, ?_, ?_, ?_⟩
+    · intro s v b h
+      cases s with
+      | leaf a => simpa [visit] using h
+      | ref x =>
+        simp only [visit, Res.andT_eq, Res.orT_eq] at h ⊢
+        cases hg : Γ x with
+        | none => simpa [hg] using h
+        | some s' => simp only [hg] at h ⊢; exact ihV s' v b h
+      | node own nt anyOf allOf items =>
+        simp only [visit, Res.andT_eq, Res.orT_eq] at h ⊢
+        refine andMono _ _ _ _ b ?_ ?_ h
+        · intro x hx
+          cases nt with
+          | none => simpa using hx
+          | some s' => simp only at hx ⊢; exact negMono _ _ x (fun y hy => ihV s' v y hy) hx
+        · intro x hx
+          refine andMono _ _ _ _ x ?_ ?_ hx
+          · intro y hy
+            cases anyOf with
+            | nil => simpa using hy
+            | cons a as => simp only at hy ⊢; exact ihY (a :: as) v y hy
+          · intro y hy
+            refine andMono _ _ _ _ y (fun z hz => ihA allOf v z hz) ?_ hy
+            intro z hz
+            cases v with
+            | num k => simpa using hz
+            | arr xs =>
+              cases items with
+              | none => simpa using hz
+              | some s' => simp only at hz ⊢; exact ihI s' xs z hz
+    · intro ss v b h
+      cases ss with
+      | nil => simpa [visitAny] using h
+      | cons s ss =>
+        simp only [visitAny, Res.andT_eq, Res.orT_eq] at h ⊢
+        exact orMono _ _ _ _ b (fun x hx => ihV s v x hx) (fun x hx => ihY ss v x hx) h
+    · intro ss v b h
+      cases ss with
+      | nil => simpa [visitAll] using h
+      | cons s ss =>
+        simp only [visitAll, Res.andT_eq, Res.orT_eq] at h ⊢
+        exact andMono _ _ _ _ b (fun x hx => ihV s v x hx) (fun x hx => ihA ss v x hx) h
+    · intro s xs b h
+      cases xs with
+      | nil => simpa [visitItems] using h
+      | cons x xs =>
+        simp only [visitItems, Res.andT_eq, Res.orT_eq] at h ⊢
+        exact andMono _ _ _ _ b (fun y hy => ihV s x y hy) (fun y hy => ihI s xs y hy) h
+
+theorem visit_mono_k (Γ : Env) (k : Nat) :
+    (∀ fuel s v b, visit Γ fuel s v = .ok b → visit Γ (fuel + k) s v = .ok b) ∧
+    (∀ fuel ss v b, visitAny Γ fuel ss v = .ok b → visitAny Γ (fuel + k) ss v = .ok b) ∧
+    (∀ fuel ss v b, visitAll Γ fuel ss v = .ok b → visitAll Γ (fuel + k) ss v = .ok b) ∧
+    (∀ fuel s xs b, visitItems Γ fuel s xs = .ok b → visitItems Γ (fuel + k) s xs = .ok b) := by
+  induction k with
+  | zero => exact ⟨fun _ _ _ _ h => h, fun _ _ _ _ h => h, fun _ _ _ _ h => h, fun _ _ _ _ h => h⟩
+  | succ k ih =>
+    obtain ⟨i1, i2, i3, i4⟩ := ih
+    exact ⟨fun f s v b h => (visit_mono_ok Γ (f + k)).1 s v b (i1 f s v b h),
+           fun f ss v b h => (visit_mono_ok Γ (f + k)).2.1 ss v b (i2 f ss v b h),
+           fun f ss v b h => (visit_mono_ok Γ (f + k)).2.2.1 ss v b (i3 f ss v b h),
+           fun f s xs b h => (visit_mono_ok Γ (f + k)).2.2.2 s xs b (i4 f s xs b h)⟩
+
+theorem visit_mono_le (Γ : Env) {n m : Nat} (h : n ≤ m) (s : S) (v : J) (b : Bool)
+    (hv : visit Γ n s v = .ok b) : visit Γ m s v = .ok b := by
+  obtain ⟨k, rfl⟩ := Nat.exists_eq_add_of_le h
+  exact (visit_mono_k Γ k).1 n s v b hv
+
+/-! ### sizes -/
+mutual
+def sizeJ : J → Nat
+  | .num _ => 1
+  | .arr xs => 1 + sizeJL xs
+def sizeJL : List J → Nat
+  | [] => 0
+  | x :: xs => sizeJ x + sizeJL xs
+end
+
+theorem sizeJ_mem : ∀ (xs : List J) (x : J), x ∈ xs → sizeJ x ≤ sizeJL xs
+  | [], _, h => by simp at h
+  | y :: ys, x, h => by
+    simp only [List.mem_cons] at h
+    simp only [sizeJL]
+    rcases h with rfl | h
+    · omega
+    · have := sizeJ_mem ys x h; omega
+
+mutual
+def sizeS : S → Nat
+  | .leaf _ => 1
+  | .ref _ => 1
+  | .node _ nt anyOf allOf items => 1 + sizeSO nt + sizeSL anyOf + sizeSL allOf + sizeSO items
+def sizeSO : Option S → Nat
+  | none => 0
+  | some s => sizeS s
+def sizeSL : List S → Nat
+  | [] => 0
+  | s :: ss => sizeS s + sizeSL ss
+end
+
+theorem sizeS_mem : ∀ (ss : List S) (s : S), s ∈ ss → sizeS s ≤ sizeSL ss
+  | [], _, h => by simp at h
+  | y :: ys, x, h => by
+    simp only [List.mem_cons] at h
+    simp only [sizeSL]
+    rcases h with rfl | h
+    · omega
+    · have := sizeS_mem ys x h; omega
+
+/-! ### unguarded references: reachable without passing through `items` -/
+mutual
+def ur : S → List Nat
+  | .leaf _ => []
+  | .ref x => [x]
+  | .node _ nt anyOf allOf _ => urO nt ++ urL anyOf ++ urL allOf
+def urO : Option S → List Nat
+  | none => []
+  | some s => ur s
+def urL : List S → List Nat
+  | [] => []
+  | s :: ss => ur s ++ urL ss
+end
+
+theorem urL_mem : ∀ (ss : List S) (s : S), s ∈ ss → ∀ y ∈ ur s, y ∈ urL ss
+  | [], _, h, _, _ => by simp at h
+  | t :: ts, s, h, y, hy => by
+    simp only [List.mem_cons] at h
+    simp only [urL, List.mem_append]
+    rcases h with rfl | h
+    · exact Or.inl hy
+    · exact Or.inr (urL_mem ts s h y hy)
+
+/-- the environment is ranked: every definition only refers, at unguarded positions, to definitions of lower rank.
+    (Equivalent to: the graph of unguarded references has no cycle.) -/
+def Ranked (Γ : Env) (rk : Nat → Nat) : Prop := ∀ x s, Γ x = some s → ∀ y ∈ ur s, rk y < rk x
+
+/-! ### list combinators decided when the elements are -/
+
+theorem decAll (Γ : Env) (v : J) : ∀ (ss : List S), (∀ s ∈ ss, ∃ n b, visit Γ n s v = .ok b) →
+    ∃ n b, visitAll Γ n ss v = .ok b
+  | [], _ => ⟨0, true, by simp [visitAll]⟩
+  | s :: ss, h => by
+    obtain ⟨n1, b1, h1⟩ := h s (List.mem_cons_self ..)
+    obtain ⟨n2, b2, h2⟩ := decAll Γ v ss (fun t ht => h t (List.mem_cons_of_mem _ ht))
+    refine ⟨n1 + n2 + 1, ?_⟩
+    have e1 : visit Γ (n1 + n2) s v = .ok b1 := (visit_mono_k Γ n2).1 n1 s v b1 h1
+    have e2 : visitAll Γ (n1 + n2) ss v = .ok b2 := by
+      have := (visit_mono_k Γ n1).2.2.1 n2 ss v b2 h2
+      rwa [Nat.add_comm] at this
+    simp only [visitAll, Res.andT_eq, Res.orT_eq, e1, e2]
+    cases b1 <;> simp [Res.and]
+
+theorem decAny (Γ : Env) (v : J) : ∀ (ss : List S), (∀ s ∈ ss, ∃ n b, visit Γ n s v = .ok b) →
+    ∃ n b, visitAny Γ n ss v = .ok b
+  | [], _ => ⟨0, false, by simp [visitAny]⟩
+  | s :: ss, h => by
+    obtain ⟨n1, b1, h1⟩ := h s (List.mem_cons_self ..)
+    obtain ⟨n2, b2, h2⟩ := decAny Γ v ss (fun t ht => h t (List.mem_cons_of_mem _ ht))
+    refine ⟨n1 + n2 + 1, ?_⟩
+    have e1 : visit Γ (n1 + n2) s v = .ok b1 := (visit_mono_k Γ n2).1 n1 s v b1 h1
+    have e2 : visitAny Γ (n1 + n2) ss v = .ok b2 := by
+      have := (visit_mono_k Γ n1).2.1 n2 ss v b2 h2
+      rwa [Nat.add_comm] at this
+    simp only [visitAny, Res.andT_eq, Res.orT_eq, e1, e2]
+    cases b1 <;> simp [Res.orElse]
+
+theorem decItems (Γ : Env) (s : S) : ∀ (xs : List J), (∀ x ∈ xs, ∃ n b, visit Γ n s x = .ok b) →
+    ∃ n b, visitItems Γ n s xs = .ok b
+  | [], _ => ⟨0, true, by simp [visitItems]⟩
+  | x :: xs, h => by
+    obtain ⟨n1, b1, h1⟩ := h x (List.mem_cons_self ..)
+    obtain ⟨n2, b2, h2⟩ := decItems Γ s xs (fun t ht => h t (List.mem_cons_of_mem _ ht))
+    refine ⟨n1 + n2 + 1, ?_⟩
+    have e1 : visit Γ (n1 + n2) s x = .ok b1 := (visit_mono_k Γ n2).1 n1 s x b1 h1
+    have e2 : visitItems Γ (n1 + n2) s xs = .ok b2 := by
+      have := (visit_mono_k Γ n1).2.2.2 n2 s xs b2 h2
+      rwa [Nat.add_comm] at this
+    simp only [visitItems, Res.andT_eq, Res.orT_eq, e1, e2]
+    cases b1 <;> simp [Res.and]
+
+/-- combining four decided parts of a node -/
+theorem decNode (a b c d : Nat → Res)
+    (ma : ∀ n m x, n ≤ m → a n = .ok x → a m = .ok x) (mb : ∀ n m x, n ≤ m → b n = .ok x → b m = .ok x)
+    (mc : ∀ n m x, n ≤ m → c n = .ok x → c m = .ok x) (md : ∀ n m x, n ≤ m → d n = .ok x → d m = .ok x)
+    (ha : ∃ n x, a n = .ok x) (hb : ∃ n x, b n = .ok x) (hc : ∃ n x, c n = .ok x) (hd : ∃ n x, d n = .ok x) :
+    ∃ n x, (a n).and ((b n).and ((c n).and (d n))) = .ok x := by
+  obtain ⟨na, xa, ea⟩ := ha
+  obtain ⟨nb, xb, eb⟩ := hb
+  obtain ⟨nc, xc, ec⟩ := hc
+  obtain ⟨nd, xd, ed⟩ := hd
+  refine ⟨na + nb + nc + nd, ?_⟩
+  rw [ma na _ xa (by omega) ea, mb nb _ xb (by omega) eb, mc nc _ xc (by omega) ec, md nd _ xd (by omega) ed]
+  cases xa <;> cases xb <;> cases xc <;> cases xd <;> simp [Res.and]
+
+
+theorem sizeJ_pos : ∀ v, 1 ≤ sizeJ v
+  | .num _ => by simp [sizeJ]
+  | .arr _ => by simp [sizeJ]
+theorem sizeS_pos : ∀ s, 1 ≤ sizeS s
+  | .leaf _ => by simp [sizeS]
+  | .ref _ => by simp [sizeS]
+  | .node .. => by simp only [sizeS]; omega
+
+def bound (rk : Nat → Nat) : List Nat → Nat
+  | [] => 0
+  | y :: ys => max (rk y + 1) (bound rk ys)
+
+theorem lt_bound (rk : Nat → Nat) : ∀ (l : List Nat) (y : Nat), y ∈ l → rk y < bound rk l
+  | [], _, h => by simp at h
+  | z :: zs, y, h => by
+    simp only [List.mem_cons] at h
+    simp only [bound]
+    rcases h with rfl | h
+    · omega
+    · have := lt_bound rk zs y h; omega
+
+theorem any_mono_le (Γ : Env) {n m : Nat} (h : n ≤ m) (ss : List S) (v : J) (b : Bool)
+    (hv : visitAny Γ n ss v = .ok b) : visitAny Γ m ss v = .ok b := by
+  obtain ⟨k, rfl⟩ := Nat.exists_eq_add_of_le h
+  exact (visit_mono_k Γ k).2.1 n ss v b hv
+theorem all_mono_le (Γ : Env) {n m : Nat} (h : n ≤ m) (ss : List S) (v : J) (b : Bool)
+    (hv : visitAll Γ n ss v = .ok b) : visitAll Γ m ss v = .ok b := by
+  obtain ⟨k, rfl⟩ := Nat.exists_eq_add_of_le h
+  exact (visit_mono_k Γ k).2.2.1 n ss v b hv
+theorem items_mono_le (Γ : Env) {n m : Nat} (h : n ≤ m) (s : S) (xs : List J) (b : Bool)
+    (hv : visitItems Γ n s xs = .ok b) : visitItems Γ m s xs = .ok b := by
+  obtain ⟨k, rfl⟩ := Nat.exists_eq_add_of_le h
+  exact (visit_mono_k Γ k).2.2.2 n s xs b hv
+
+/-- one value, one rank bound: every schema whose unguarded references have rank < r is decided, given that
+    definitions of rank < r are decided on this value and everything is decided on smaller values -/
+theorem step (Γ : Env) (rk : Nat → Nat) (v : J) (r : Nat)
+    (hRef : ∀ x, rk x < r → ∀ s', Γ x = some s' → ∃ n b, visit Γ n s' v = .ok b)
+    (hSmall : ∀ xs, v = .arr xs → ∀ x ∈ xs, ∀ s', ∃ n b, visit Γ n s' x = .ok b) :
+    ∀ M s, sizeS s ≤ M → (∀ y ∈ ur s, rk y < r) → ∃ n b, visit Γ n s v = .ok b := by
+  intro M
+  induction M with
+  | zero => intro s hs; have := sizeS_pos s; omega
+  | succ M ih =>
+    intro s hs hur
+    cases s with
+    | leaf a => exact ⟨1, by cases v <;> simp [visit]⟩
+    | ref x =>
+      have hx : rk x < r := hur x (by simp [ur])
+      cases hg : Γ x with
+      | none => exact ⟨1, false, by simp [visit, hg]⟩
+      | some s' =>
+        obtain ⟨n, b, h⟩ := hRef x hx s' hg
+        exact ⟨n + 1, b, by simp [visit, hg, h]⟩
+    | node own nt anyOf allOf items =>
+      simp only [sizeS] at hs
+      have hurN : ∀ y ∈ urO nt, rk y < r := fun y hy => hur y (by simp [ur, hy])
+      have hurY : ∀ y ∈ urL anyOf, rk y < r := fun y hy => hur y (by simp [ur, hy])
+      have hurA : ∀ y ∈ urL allOf, rk y < r := fun y hy => hur y (by simp [ur, hy])
+      -- the four parts as functions of the fuel
+      have ha : ∃ n x, (match nt with | none => Res.ok true | some s => (visit Γ n s v).neg) = .ok x := by
+        cases nt with
+        | none => exact ⟨0, true, rfl⟩
+        | some s' =>
+          obtain ⟨n, b, h⟩ := ih s' (by simp only [sizeSO] at hs; omega) (fun y hy => hurN y (by simpa [urO] using hy))
+          exact ⟨n, !b, by simp [h, Res.neg]⟩
+      have hb : ∃ n x, (match anyOf with | [] => Res.ok true | _ :: _ => visitAny Γ n anyOf v) = .ok x := by
+        cases hl : anyOf with
+        | nil => exact ⟨0, true, rfl⟩
+        | cons a as =>
+          obtain ⟨n, b, h⟩ := decAny Γ v anyOf (fun t ht =>
+            ih t (by have := sizeS_mem anyOf t ht; omega) (fun y hy => hurY y (urL_mem anyOf t ht y hy)))
+          exact ⟨n, b, by rw [hl] at h; simpa using h⟩
+      have hc : ∃ n x, visitAll Γ n allOf v = .ok x :=
+        decAll Γ v allOf (fun t ht =>
+          ih t (by have := sizeS_mem allOf t ht; omega) (fun y hy => hurA y (urL_mem allOf t ht y hy)))
+      have hd : ∃ n x, (match v, items with | .arr xs, some s => visitItems Γ n s xs | _, _ => Res.ok true) = .ok x := by
+        cases v with
+        | num k => exact ⟨0, true, rfl⟩
+        | arr xs =>
+          cases items with
+          | none => exact ⟨0, true, rfl⟩
+          | some s' =>
+            obtain ⟨n, b, h⟩ := decItems Γ s' xs (fun x hx => hSmall xs rfl x hx s')
+            exact ⟨n, b, by simpa using h⟩
+      obtain ⟨n, x, h⟩ := decNode
+        (fun n => match nt with | none => Res.ok true | some s => (visit Γ n s v).neg)
+        (fun n => match anyOf with | [] => Res.ok true | _ :: _ => visitAny Γ n anyOf v)
+        (fun n => visitAll Γ n allOf v)
+        (fun n => match v, items with | .arr xs, some s => visitItems Γ n s xs | _, _ => Res.ok true)
+        (by
+          intro n m x hnm hx
+          cases nt with
+          | none => simpa using hx
+          | some s' => simp only at hx ⊢; exact negMono _ _ x (fun y hy => visit_mono_le Γ hnm s' v y hy) hx)
+        (by
+          intro n m x hnm hx
+          cases anyOf with
+          | nil => simpa using hx
+          | cons a as => simp only at hx ⊢; exact any_mono_le Γ hnm _ v x hx)
+        (fun n m x hnm hx => all_mono_le Γ hnm allOf v x hx)
+        (by
+          intro n m x hnm hx
           cases v with
           | num k => simpa using hx
           | arr xs =>
             cases items with
             | none => simpa using hx
-            | some s' => simp only at hx ⊢; exact ihI s' xs x hx
-      · intro ss v b h
-        cases ss with
-        | nil => simpa [visitAll] using h
-        | cons s ss =>
-          simp only [visitAll] at h ⊢
-          exact andMono _ _ _ _ b (fun x hx => ihV s v x hx) (fun x hx => ihA ss v x hx) h
-      · intro s xs b h
-        cases xs with
-        | nil => simpa [visitItems] using h
-        | cons x xs =>
-          simp only [visitItems] at h ⊢
-          exact andMono _ _ _ _ b (fun y hy => ihV s x y hy) (fun y hy => ihI s xs y hy) h
-  exact ⟨fun f => (key f).1, fun f => (key f).2.1, fun f => (key f).2.2⟩
+            | some s' => simp only at hx ⊢; exact items_mono_le Γ hnm s' xs x hx)
+        ha hb hc hd
+      exact ⟨n + 1, x, by simp only [visit, Res.andT_eq, Res.orT_eq]; exact h⟩
 
-theorem visit_mono_k (Γ : Env) (k : Nat) :
-    (∀ fuel s v b, visit Γ fuel s v = .ok b → visit Γ (fuel + k) s v = .ok b) ∧
-    (∀ fuel s xs b, visitItems Γ fuel s xs = .ok b → visitItems Γ (fuel + k) s xs = .ok b) := by
-  induction k with
-  | zero => exact ⟨fun _ _ _ _ h => h, fun _ _ _ _ h => h⟩
-  | succ k ih =>
-    exact ⟨fun f s v b h => (visit_mono_ok Γ).1 (f + k) s v b (ih.1 f s v b h),
-           fun f s xs b h => (visit_mono_ok Γ).2.2 (f + k) s xs b (ih.2 f s xs b h)⟩
+/-- **Guarded recursion terminates, in general**: in a ranked environment (no cycle of unguarded references) the
+    validator decides every schema on every value. -/
+theorem ranked_decided (Γ : Env) (rk : Nat → Nat) (hR : Ranked Γ rk) :
+    ∀ (v : J) (s : S), ∃ n b, visit Γ n s v = .ok b := by
+  -- induction on the size of the value
+  have key : ∀ N v, sizeJ v ≤ N → ∀ s, ∃ n b, visit Γ n s v = .ok b := by
+    intro N
+    induction N with
+    | zero => intro v hv; have := sizeJ_pos v; omega
+    | succ N ihN =>
+      intro v hv
+      have hSmall : ∀ xs, v = .arr xs → ∀ x ∈ xs, ∀ s', ∃ n b, visit Γ n s' x = .ok b := by
+        intro xs hxs x hx s'
+        subst hxs
+        simp only [sizeJ] at hv
+        have := sizeJ_mem xs x hx
+        exact ihN x (by omega) s'
+      -- induction on the rank bound
+      have byRank : ∀ r, ∀ s, (∀ y ∈ ur s, rk y < r) → ∃ n b, visit Γ n s v = .ok b := by
+        intro r
+        induction r using Nat.strongRecOn with
+        | _ r ihr =>
+          intro s hur
+          refine step Γ rk v r ?_ hSmall (sizeS s) s (Nat.le_refl _) hur
+          intro x hx s' hg
+          exact ihr (rk x) hx s' (fun y hy => hR x s' hg y hy)
+      intro s
+      exact byRank (bound rk (ur s)) s (fun y hy => lt_bound rk _ y hy)
+  intro v s
+  exact key (sizeJ v) v (Nat.le_refl _) s
+
+/-- fuel form: beyond some amount of fuel the answer never changes and is never `diverge` -/
+theorem ranked_never_diverges (Γ : Env) (rk : Nat → Nat) (hR : Ranked Γ rk) (v : J) (s : S) :
+    ∃ n b, ∀ m, n ≤ m → visit Γ m s v = .ok b := by
+  obtain ⟨n, b, h⟩ := ranked_decided Γ rk hR v s
+  exact ⟨n, b, fun m hm => visit_mono_le Γ hm s v b h⟩
+
+/-- the shortcut is sound to leave out: on a schema without sub-schemas `IsEmpty` answers with fuel 1 -/
+theorem isEmpty_no_sub (Γ : Env) (own : Bool) (fuel : Nat) :
+    isEmpty Γ (fuel + 1) (.node own none [] [] none) = .ok (!own) := by
+  cases own <;> simp [isEmpty, isEmptyAll, Res.and]
 
 /-- finding #6: the unguarded self-reference `A: {allOf: [{$ref: A}]}`, with (`own`) or without a keyword of its own -/
-def Γ6 (own : Bool) : Env := fun x => if x = 0 then some (.node own [.ref 0] none) else none
+def Γ6 (own : Bool) : Env := fun x => if x = 0 then some (.node own none [] [.ref 0] none) else none
 
 theorem unguarded_diverges (own : Bool) (v : J) : ∀ (fuel : Nat),
-    visit (Γ6 own) fuel (.ref 0) v = .diverge ∧ visit (Γ6 own) fuel (.node own [.ref 0] none) v = .diverge ∧
+    visit (Γ6 own) fuel (.ref 0) v = .diverge ∧ visit (Γ6 own) fuel (.node own none [] [.ref 0] none) v = .diverge ∧
     visitAll (Γ6 own) fuel [.ref 0] v = .diverge
   | 0 => by simp [visit, visitAll]
   | fuel + 1 => by
     obtain ⟨ih1, ih2, ih3⟩ := unguarded_diverges own v fuel
     refine ⟨?_, ?_, ?_⟩
     · simpa [visit, Γ6] using ih2
-    · simp only [visit, ih3]; rfl
-    · simp only [visitAll, ih1]; rfl
+    · simp only [visit, Res.andT_eq, Res.orT_eq, ih3]; rfl
+    · simp only [visitAll, Res.andT_eq, Res.orT_eq, ih1]; rfl
+
+/-- the same through `not` and through `anyOf`: `A: {not: {$ref: A}}`, `A: {anyOf: [{$ref: A}]}` -/
+def ΓN : Env := fun x => if x = 0 then some (.node false (some (.ref 0)) [] [] none) else none
+def ΓY : Env := fun x => if x = 0 then some (.node false none [.ref 0] [] none) else none
+
+theorem not_cycle_diverges (v : J) : ∀ (fuel : Nat),
+    visit ΓN fuel (.ref 0) v = .diverge ∧ visit ΓN fuel (.node false (some (.ref 0)) [] [] none) v = .diverge
+  | 0 => by simp [visit]
+  | fuel + 1 => by
+    obtain ⟨ih1, ih2⟩ := not_cycle_diverges v fuel
+    refine ⟨?_, ?_⟩
+    · simpa [visit, ΓN] using ih2
+    · simp only [visit, Res.andT_eq, Res.orT_eq, ih1]; rfl
+
+theorem anyOf_cycle_diverges (v : J) : ∀ (fuel : Nat),
+    visit ΓY fuel (.ref 0) v = .diverge ∧ visit ΓY fuel (.node false none [.ref 0] [] none) v = .diverge ∧
+    visitAny ΓY fuel [.ref 0] v = .diverge
+  | 0 => by simp [visit, visitAny]
+  | fuel + 1 => by
+    obtain ⟨ih1, ih2, ih3⟩ := anyOf_cycle_diverges v fuel
+    refine ⟨?_, ?_, ?_⟩
+    · simpa [visit, ΓY] using ih2
+    · simp only [visit, Res.andT_eq, Res.orT_eq, ih3]; rfl
+    · simp only [visitAny, Res.andT_eq, Res.orT_eq, ih1]; rfl
 
 /-- `L: {items: {$ref: L}}` -/
-def ΓL (own : Bool) : Env := fun x => if x = 0 then some (.node own [] (some (.ref 0))) else none
+def ΓL (own : Bool) : Env := fun x => if x = 0 then some (.node own none [] [] (some (.ref 0))) else none
 
 /-- `Schema.IsEmpty` itself still follows the cycle of `L: {items: {$ref: L}}` without end (it has no visited
     set); since 08457da `visitJSON` does not evaluate it on such a schema -/
 theorem isEmpty_diverges : ∀ (fuel : Nat),
-    isEmpty (ΓL false) fuel (.ref 0) = .diverge ∧ isEmpty (ΓL false) fuel (.node false [] (some (.ref 0))) = .diverge
+    isEmpty (ΓL false) fuel (.ref 0) = .diverge ∧ isEmpty (ΓL false) fuel (.node false none [] [] (some (.ref 0))) = .diverge
   | 0 => by simp [isEmpty]
   | fuel + 1 => by
     obtain ⟨ih1, ih2⟩ := isEmpty_diverges fuel
     refine ⟨?_, ?_⟩
     · simpa [isEmpty, ΓL] using ih2
-    · simp only [isEmpty, Bool.false_eq_true, if_false, ih1]; rfl
+    · simp only [isEmpty, Res.andT_eq, Res.orT_eq, Bool.false_eq_true, if_false, ih1]; rfl
 
 mutual
 def fuelFor : J → Nat
@@ -198,12 +587,12 @@ theorem guarded_terminates (own : Bool) : ∀ (v : J), visit (ΓL own) (fuelFor 
     have h := guarded_items own xs
     simp only [fuelFor]
     rw [show 2 + fuelForL xs = (fuelForL xs + 1) + 1 by omega]
-    simp only [visit, ΓL, if_true]
+    simp only [visit, Res.andT_eq, Res.orT_eq, ΓL, if_true]
     cases hx : fuelForL xs with
     | zero =>
       have : xs = [] := by cases xs <;> simp_all [fuelForL]
       subst this; simp [visitAll, visitItems, Res.and]
-    | succ g => rw [hx] at h; simp only [visitAll, Res.and]; exact h
+    | succ g => rw [hx] at h; simp only [visitAll, Res.andT_eq, Res.orT_eq, Res.and]; exact h
 theorem guarded_items (own : Bool) : ∀ (xs : List J), visitItems (ΓL own) (fuelForL xs) (.ref 0) xs = .ok true
   | [] => by simp [visitItems]
   | x :: xs => by
@@ -211,25 +600,65 @@ theorem guarded_items (own : Bool) : ∀ (xs : List J), visitItems (ΓL own) (fu
     have h2 := guarded_items own xs
     simp only [fuelForL]
     rw [show 1 + fuelFor x + fuelForL xs = (fuelFor x + fuelForL xs) + 1 by omega]
-    simp only [visitItems]
+    simp only [visitItems, Res.andT_eq, Res.orT_eq]
     have e1 := (visit_mono_k (ΓL own) (fuelForL xs)).1 _ _ _ _ h1
-    have e2 := (visit_mono_k (ΓL own) (fuelFor x)).2 _ _ _ _ h2
+    have e2 := (visit_mono_k (ΓL own) (fuelFor x)).2.2.2 _ _ _ _ h2
     rw [Nat.add_comm (fuelForL xs) (fuelFor x)] at e2
     rw [e1, e2]; rfl
 end
 
-/-! ## executable helpers for the driver -/
+/-! ## executable side: finite environments, the decidable guardedness check -/
 
 def envOf (defs : List S) : Env := fun x => defs[x]?
 
-/-- references reachable from a schema without passing through `items` -/
-def unguardedRefs : S → List Nat
-  | .leaf _ => []
-  | .ref x => [x]
-  | .node _ allOf _ => unguardedRefsL allOf
-where unguardedRefsL : List S → List Nat
-  | [] => []
-  | s :: ss => unguardedRefs s ++ unguardedRefsL ss
+/-- rank of a name from a list of ranks: defined names get rank + 1, undefined names (which the validator answers
+    at once) rank 0 -/
+def rkOf (ranks : List Nat) (x : Nat) : Nat := match ranks[x]? with | some r => r + 1 | none => 0
+
+/-- the ranks are strictly decreasing along every unguarded reference between definitions -/
+def rankedB (defs : List S) (ranks : List Nat) : Bool :=
+  ranks.length == defs.length &&
+  (List.range defs.length).all (fun x =>
+    match defs[x]? with
+    | some s => (ur s).all (fun y => rkOf ranks y < rkOf ranks x)
+    | none => true)
+
+theorem rankedB_sound (defs : List S) (ranks : List Nat) (h : rankedB defs ranks = true) :
+    Ranked (envOf defs) (rkOf ranks) := by
+  intro x s hx y hy
+  unfold rankedB at h
+  simp only [Bool.and_eq_true, List.all_eq_true, List.mem_range, beq_iff_eq] at h
+  obtain ⟨_, h⟩ := h
+  unfold envOf at hx
+  have hlt : x < defs.length := by
+    cases Nat.lt_or_ge x defs.length with
+    | inl h => exact h
+    | inr h => simp [List.getElem?_eq_none h] at hx
+  have := h x hlt
+  simp only [hx, List.all_eq_true, decide_eq_true_eq] at this
+  exact this y hy
+
+/-- longest-unguarded-path ranks by relaxation (`defs.length` rounds are enough when there is no cycle) -/
+def relax (defs : List S) (ranks : List Nat) : List Nat :=
+  (List.range defs.length).map (fun x =>
+    match defs[x]? with
+    | some s => bound (rkOf ranks) (ur s)
+    | none => 0)
+
+def computeRanks (defs : List S) : List Nat :=
+  (List.range defs.length).foldl (fun ranks _ => relax defs ranks) (defs.map (fun _ => 0))
+
+/-- the decidable guardedness predicate: the computed ranks are a certificate -/
+def guardedB (defs : List S) : Bool := rankedB defs (computeRanks defs)
+
+/-- **guarded ⇒ decided**, decidable form: a finite environment that passes the check decides every schema on
+    every value, and the answer is stable for all larger amounts of fuel -/
+theorem guardedB_sound (defs : List S) (h : guardedB defs = true) (v : J) (s : S) :
+    ∃ n b, ∀ m, n ≤ m → visit (envOf defs) m s v = .ok b :=
+  ranked_never_diverges (envOf defs) (rkOf (computeRanks defs)) (rankedB_sound defs _ h) v s
+
+/-- references reachable from a schema without passing through `items` (= `ur`) -/
+abbrev unguardedRefs : S → List Nat := ur
 
 /-- can `x` reach itself through unguarded edges only (depth-bounded search, bound = number of definitions) -/
 def reachesUnguarded (defs : List S) (target : Nat) : Nat → Nat → Bool
@@ -237,7 +666,7 @@ def reachesUnguarded (defs : List S) (target : Nat) : Nat → Nat → Bool
   | fuel + 1, x =>
     match defs[x]? with
     | none => false
-    | some s => (unguardedRefs s).any (fun y => y = target || reachesUnguarded defs target fuel y)
+    | some s => (ur s).any (fun y => y = target || reachesUnguarded defs target fuel y)
 
 def hasUnguardedCycle (defs : List S) : Bool :=
   (List.range defs.length).any (fun x => reachesUnguarded defs x defs.length x)
